@@ -925,6 +925,7 @@ pub fn run(ctx: &mut Ctx) {
     let jobs: Vec<Job> = if let Some(case) = ctx.replay_only.clone() {
         // `case <group> <idx>`
         if super::c15_text::replay(ctx, &case) { return; }
+        if super::c15_bin::replay(ctx, &case) { return; }
         if case.first().map(|s| s.as_str()) == Some("corr") {
             corr::replay(ctx, &case[1..]);
             return;
@@ -936,6 +937,7 @@ pub fn run(ctx: &mut Ctx) {
         // the correspondence suites run in this process (small decoders, bounded inputs)
         corr::run(ctx);
         super::c15_text::run(ctx);
+        super::c15_bin::run(ctx);
         let w = World::new(&format!("{dir}/parent"));
         ctx.sample(|| seeds::describe(&w.s));
         if std::env::var("NVH_C15_SKIP_ORACLE").is_ok() { vec![] } else { plan(ctx, &w) }
